@@ -103,3 +103,19 @@ pub fn s_new_mul(a: f64, b: f64) -> TwoFloat {
     kani::assume(post_new_mul(a, b, &r));
     r
 }
+
+// ------------------------------------------------- value-independent operator stubs
+// Used by the panic-freedom / control-flow obligations of the elementary functions: every
+// operator returns an arbitrary value that is valid or has a non-finite high word.  (The
+// operators themselves contain no panicking construct: straight-line float code.)
+#[cfg(kani)]
+pub fn hv() -> TwoFloat { let r: TwoFloat = kani::any(); kani::assume(ival(&r)); r }
+#[cfg(kani)] pub fn h_tt<'a: 'a, 'b: 'b>(_a: &'a TwoFloat, _b: &'b TwoFloat) -> TwoFloat { hv() }
+#[cfg(kani)] pub fn h_tf<'a: 'a, 'b: 'b>(_a: &'a TwoFloat, _b: &'b f64) -> TwoFloat { hv() }
+#[cfg(kani)] pub fn h_ft<'a: 'a, 'b: 'b>(_a: &'a f64, _b: &'b TwoFloat) -> TwoFloat { hv() }
+#[cfg(kani)] pub fn h_at<'a: 'a>(a: &mut TwoFloat, _b: &'a TwoFloat) { *a = hv(); }
+#[cfg(kani)] pub fn h_af<'a: 'a>(a: &mut TwoFloat, _b: &'a f64) { *a = hv(); }
+#[cfg(kani)] pub fn h_f64(_x: f64) -> f64 { kani::any() }
+#[cfg(kani)] pub fn h_unary(_x: TwoFloat) -> TwoFloat { hv() }
+#[cfg(kani)] pub fn h_i32(_n: i32) -> TwoFloat { hv() }
+#[cfg(kani)] pub fn h_av<'a: 'a>(a: &'a mut TwoFloat, _b: TwoFloat) { *a = hv(); }
